@@ -895,7 +895,9 @@ def run_batch(ck: Check, jobs: list[dict], workers: int, log) -> list[dict]:
     from bqskit import compile as bq_compile
     from harness.pipe_rt import (JobTimeout, RuntimeUnavailable, alarm,
                                  shared_compiler)
-    job_timeout = 600 if ck.tier == 'quick' else 900
+    # quick tier: the slowest job takes < 60 s on a loaded machine; a runtime whose workers died
+    # answers nothing, and the machine-wide lock must not be held for 10 minutes (RUNTIME_LOCK.md)
+    job_timeout = 240 if ck.tier == 'quick' else 900
     results: list[dict] = []
     t_all = time.time()
     # cells that raise on the code as it is: in process, before the runtime lock is taken
